@@ -227,12 +227,12 @@ def _case(draw):
     fr = draw(base.frames(max_rows=24, max_geoms=2))
     n = fr['n']
     case = {'frame': fr, 'parts': draw(base.partitionings(n)),
-            'npartitions': draw(st.one_of(st.integers(1, 16), st.integers(1, 16), st.integers(1, 4))),
-            'p': draw(st.one_of(st.integers(1, 20), st.integers(1, 3))),
+            'npartitions': draw(st.one_of(st.sampled_from(range(1, 17)), st.sampled_from(range(2, 17)), st.integers(1, 4))),
+            'p': draw(st.one_of(st.sampled_from(range(1, 21)), st.sampled_from(range(2, 21)), st.integers(1, 3))),
             'compression': draw(st.sampled_from(['snappy', 'gzip', None])),
             'tempdir': draw(st.sampled_from(['inside', 'inside', 'external-uuid', 'external-plain'])),
             'overwrite': False, 'previous': None}
-    r = draw(st.integers(0, 5))
+    r = draw(st.sampled_from(range(6)))
     if r <= 1:
         pf = draw(base.frames(max_rows=8, max_geoms=1))
         pf['id'] = [1000 + i for i in pf['id']]
